@@ -51,7 +51,7 @@ func HandleSearch(deps ServerDeps, conn net.Conn, tag string, parts []string, st
 	}
 
 	// Get appropriate database (user or role mailbox)
-	targetDB, targetUserID, err := deps.GetSelectedDB(state)
+	targetDB, _, err := deps.GetSelectedDB(state)
 	if err != nil {
 		deps.SendResponse(conn, fmt.Sprintf("%s NO Database error", tag))
 		return
@@ -119,7 +119,7 @@ func HandleSearch(deps ServerDeps, conn net.Conn, tag string, parts []string, st
 
 	// Parse and evaluate search criteria
 	criteria := strings.Join(parts[searchStart:], " ")
-	matchingSeqNums := evaluateSearchCriteria(messages, criteria, charset, targetUserID, deps)
+	matchingSeqNums := evaluateSearchCriteria(messages, criteria, charset, targetDB, deps)
 
 	// Build response
 	if len(matchingSeqNums) > 0 {
@@ -135,7 +135,7 @@ func HandleSearch(deps ServerDeps, conn net.Conn, tag string, parts []string, st
 }
 
 // evaluateSearchCriteria evaluates search criteria against messages
-func evaluateSearchCriteria(messages []messageInfo, criteria string, charset string, userID int64, deps ServerDeps) []int {
+func evaluateSearchCriteria(messages []messageInfo, criteria string, charset string, targetDB *sql.DB, deps ServerDeps) []int {
 	var matchingSeqNums []int
 
 	// Default to ALL if no criteria specified
@@ -148,7 +148,7 @@ func evaluateSearchCriteria(messages []messageInfo, criteria string, charset str
 
 	// Evaluate each message
 	for _, msg := range messages {
-		if matchesSearchCriteria(msg, tokens, charset, userID, deps) {
+		if matchesSearchCriteria(msg, tokens, charset, targetDB, deps) {
 			matchingSeqNums = append(matchingSeqNums, msg.seqNum)
 		}
 	}
@@ -200,18 +200,18 @@ func parseSearchTokens(criteria string) []string {
 }
 
 // matchesSearchCriteria checks if a message matches the search criteria
-func matchesSearchCriteria(msg messageInfo, tokens []string, charset string, userID int64, deps ServerDeps) bool {
+func matchesSearchCriteria(msg messageInfo, tokens []string, charset string, targetDB *sql.DB, deps ServerDeps) bool {
 	// Default to ALL - match everything
 	if len(tokens) == 0 {
 		return true
 	}
 
 	// Process tokens (AND logic by default)
-	return evaluateTokens(msg, tokens, charset, userID, deps)
+	return evaluateTokens(msg, tokens, charset, targetDB, deps)
 }
 
 // evaluateTokens evaluates a list of search tokens
-func evaluateTokens(msg messageInfo, tokens []string, charset string, userID int64, deps ServerDeps) bool {
+func evaluateTokens(msg messageInfo, tokens []string, charset string, targetDB *sql.DB, deps ServerDeps) bool {
 	i := 0
 	for i < len(tokens) {
 		token := strings.ToUpper(tokens[i])
@@ -323,7 +323,7 @@ func evaluateTokens(msg messageInfo, tokens []string, charset string, userID int
 				i++
 				nextTokens = append(nextTokens, tokens[i])
 			}
-			if evaluateTokens(msg, nextTokens, charset, userID, deps) {
+			if evaluateTokens(msg, nextTokens, charset, targetDB, deps) {
 				return false
 			}
 			i++
@@ -345,7 +345,7 @@ func evaluateTokens(msg messageInfo, tokens []string, charset string, userID int
 				i++
 				key2Tokens = append(key2Tokens, tokens[i])
 			}
-			if !evaluateTokens(msg, key1Tokens, charset, userID, deps) && !evaluateTokens(msg, key2Tokens, charset, userID, deps) {
+			if !evaluateTokens(msg, key1Tokens, charset, targetDB, deps) && !evaluateTokens(msg, key2Tokens, charset, targetDB, deps) {
 				return false
 			}
 			i++
@@ -357,7 +357,7 @@ func evaluateTokens(msg messageInfo, tokens []string, charset string, userID int
 			}
 			i++
 			searchStr := unquote(tokens[i])
-			if !matchesHeaderOrBody(msg, token, searchStr, charset, userID, deps) {
+			if !matchesHeaderOrBody(msg, token, searchStr, charset, targetDB, deps) {
 				return false
 			}
 			i++
@@ -371,7 +371,7 @@ func evaluateTokens(msg messageInfo, tokens []string, charset string, userID int
 			fieldName := unquote(tokens[i])
 			i++
 			searchStr := unquote(tokens[i])
-			if !matchesHeader(msg, fieldName, searchStr, charset, userID, deps) {
+			if !matchesHeader(msg, fieldName, searchStr, charset, targetDB, deps) {
 				return false
 			}
 			i++
@@ -407,7 +407,7 @@ func evaluateTokens(msg messageInfo, tokens []string, charset string, userID int
 			}
 			i++
 			size, err := strconv.Atoi(tokens[i])
-			if err != nil || !matchesSize(msg, size, true, userID, deps) {
+			if err != nil || !matchesSize(msg, size, true, targetDB, deps) {
 				return false
 			}
 			i++
@@ -419,7 +419,7 @@ func evaluateTokens(msg messageInfo, tokens []string, charset string, userID int
 			}
 			i++
 			size, err := strconv.Atoi(tokens[i])
-			if err != nil || !matchesSize(msg, size, false, userID, deps) {
+			if err != nil || !matchesSize(msg, size, false, targetDB, deps) {
 				return false
 			}
 			i++
@@ -454,7 +454,7 @@ func evaluateTokens(msg messageInfo, tokens []string, charset string, userID int
 			}
 			i++
 			dateStr := unquote(tokens[i])
-			if !matchesSentDate(msg, dateStr, token, userID, deps) {
+			if !matchesSentDate(msg, dateStr, token, targetDB, deps) {
 				return false
 			}
 			i++
@@ -533,19 +533,13 @@ func matchesUIDSet(uid int, set string) bool {
 	return matchesSequenceSet(uid, set)
 }
 
-func matchesHeaderOrBody(msg messageInfo, field string, searchStr string, charset string, userID int64, deps ServerDeps) bool {
-	// Get user database
-	userDB, err := deps.GetUserDB(userID)
-	if err != nil {
-		return false
-	}
-
+func matchesHeaderOrBody(msg messageInfo, field string, searchStr string, charset string, targetDB *sql.DB, deps ServerDeps) bool {
 	// Get shared database for blob access
 	sharedDB := deps.GetSharedDB()
 	s3Storage := deps.GetS3Storage()
 
 	// Reconstruct message to search in headers/body
-	rawMsg, err := parser.ReconstructMessageWithSharedDBAndS3(sharedDB, userDB, msg.messageID, s3Storage)
+	rawMsg, err := parser.ReconstructMessageWithSharedDBAndS3(sharedDB, targetDB, msg.messageID, s3Storage)
 	if err != nil {
 		return false
 	}
@@ -582,18 +576,12 @@ func matchesHeaderOrBody(msg messageInfo, field string, searchStr string, charse
 	return false
 }
 
-func matchesHeader(msg messageInfo, fieldName string, searchStr string, charset string, userID int64, deps ServerDeps) bool {
-	// Get user database
-	userDB, err := deps.GetUserDB(userID)
-	if err != nil {
-		return false
-	}
-
+func matchesHeader(msg messageInfo, fieldName string, searchStr string, charset string, targetDB *sql.DB, deps ServerDeps) bool {
 	// Get shared database for blob access
 	sharedDB := deps.GetSharedDB()
 	s3Storage := deps.GetS3Storage()
 
-	rawMsg, err := parser.ReconstructMessageWithSharedDBAndS3(sharedDB, userDB, msg.messageID, s3Storage)
+	rawMsg, err := parser.ReconstructMessageWithSharedDBAndS3(sharedDB, targetDB, msg.messageID, s3Storage)
 	if err != nil {
 		return false
 	}
@@ -660,18 +648,12 @@ func headerContains(rawMsg string, fieldName string, searchStr string) bool {
 	return strings.Contains(strings.ToUpper(headerValue.String()), searchStrUpper)
 }
 
-func matchesSize(msg messageInfo, size int, larger bool, userID int64, deps ServerDeps) bool {
-	// Get user database
-	userDB, err := deps.GetUserDB(userID)
-	if err != nil {
-		return false
-	}
-
+func matchesSize(msg messageInfo, size int, larger bool, targetDB *sql.DB, deps ServerDeps) bool {
 	// Get shared database for blob access
 	sharedDB := deps.GetSharedDB()
 	s3Storage := deps.GetS3Storage()
 
-	rawMsg, err := parser.ReconstructMessageWithSharedDBAndS3(sharedDB, userDB, msg.messageID, s3Storage)
+	rawMsg, err := parser.ReconstructMessageWithSharedDBAndS3(sharedDB, targetDB, msg.messageID, s3Storage)
 	if err != nil {
 		return false
 	}
@@ -706,19 +688,13 @@ func matchesDate(internalDate time.Time, dateStr string, comparison string) bool
 	return false
 }
 
-func matchesSentDate(msg messageInfo, dateStr string, comparison string, userID int64, deps ServerDeps) bool {
-	// Get user database
-	userDB, err := deps.GetUserDB(userID)
-	if err != nil {
-		return false
-	}
-
+func matchesSentDate(msg messageInfo, dateStr string, comparison string, targetDB *sql.DB, deps ServerDeps) bool {
 	// Get shared database for blob access
 	sharedDB := deps.GetSharedDB()
 	s3Storage := deps.GetS3Storage()
 
 	// Get Date: header from message
-	rawMsg, err := parser.ReconstructMessageWithSharedDBAndS3(sharedDB, userDB, msg.messageID, s3Storage)
+	rawMsg, err := parser.ReconstructMessageWithSharedDBAndS3(sharedDB, targetDB, msg.messageID, s3Storage)
 	if err != nil {
 		return false
 	}
@@ -835,8 +811,8 @@ func HandleStore(deps ServerDeps, conn net.Conn, tag string, parts []string, sta
 		return
 	}
 
-	// Get user database
-	userDB, err := deps.GetUserDB(state.UserID)
+	// Get the database of the selected mailbox (user or role mailbox)
+	userDB, targetUserID, err := deps.GetSelectedDB(state)
 	if err != nil {
 		deps.SendResponse(conn, fmt.Sprintf("%s NO Database error", tag))
 		return
@@ -885,7 +861,7 @@ func HandleStore(deps ServerDeps, conn net.Conn, tag string, parts []string, sta
 			cleanedFlagsStr := flagSetToString(cleanedFlags)
 
 			// Move to Spam folder
-			err = MoveMessageToMailbox(userDB, messageID, state.SelectedMailboxID, uid, "Spam", state.UserID, cleanedFlagsStr, internalDate)
+			err = MoveMessageToMailbox(userDB, messageID, state.SelectedMailboxID, uid, "Spam", targetUserID, cleanedFlagsStr, internalDate)
 			if err != nil {
 				if !errors.Is(err, ErrAlreadyInMailbox) {
 					log.Printf("Failed to move message %d to Spam: %v", messageID, err)
@@ -905,7 +881,7 @@ func HandleStore(deps ServerDeps, conn net.Conn, tag string, parts []string, sta
 			cleanedFlagsStr := flagSetToString(cleanedFlags)
 
 			// Move to INBOX
-			err = MoveMessageToMailbox(userDB, messageID, state.SelectedMailboxID, uid, "INBOX", state.UserID, cleanedFlagsStr, internalDate)
+			err = MoveMessageToMailbox(userDB, messageID, state.SelectedMailboxID, uid, "INBOX", targetUserID, cleanedFlagsStr, internalDate)
 			if err != nil {
 				if !errors.Is(err, ErrAlreadyInMailbox) {
 					log.Printf("Failed to move message %d to INBOX: %v", messageID, err)
@@ -1046,8 +1022,8 @@ func HandleCopy(deps ServerDeps, conn net.Conn, tag string, parts []string, stat
 	sequenceSet := parts[1]
 	destMailbox := strings.Trim(strings.Join(parts[2:], " "), "\"")
 
-	// Get user database
-	userDB, err := deps.GetUserDB(state.UserID)
+	// Get the database of the selected mailbox (user or role mailbox)
+	userDB, targetUserID, err := deps.GetSelectedDB(state)
 	if err != nil {
 		deps.SendResponse(conn, fmt.Sprintf("%s NO Database error", tag))
 		return
@@ -1065,7 +1041,7 @@ func HandleCopy(deps ServerDeps, conn net.Conn, tag string, parts []string, stat
 	err = userDB.QueryRow(`
 		SELECT id FROM mailboxes
 		WHERE name = ? AND user_id = ?
-	`, destMailbox, state.UserID).Scan(&destMailboxID)
+	`, destMailbox, targetUserID).Scan(&destMailboxID)
 
 	if err != nil {
 		// Destination mailbox doesn't exist - return NO with [TRYCREATE]
@@ -1580,8 +1556,8 @@ func HandleExpunge(deps ServerDeps, conn net.Conn, tag string, state *models.Cli
 	// EXPUNGE should return NO
 	// TODO: Add ReadOnly field to ClientState to properly handle EXAMINE
 
-	// Get user database
-	userDB, err := deps.GetUserDB(state.UserID)
+	// Get the database of the selected mailbox (user or role mailbox)
+	userDB, _, err := deps.GetSelectedDB(state)
 	if err != nil {
 		deps.SendResponse(conn, fmt.Sprintf("%s NO Database error", tag))
 		return
@@ -1693,8 +1669,8 @@ func HandleCheck(deps ServerDeps, conn net.Conn, tag string, state *models.Clien
 		return
 	}
 
-	// Get user database
-	userDB, err := deps.GetUserDB(state.UserID)
+	// Get the database of the selected mailbox (user or role mailbox)
+	userDB, _, err := deps.GetSelectedDB(state)
 	if err != nil {
 		deps.SendResponse(conn, fmt.Sprintf("%s OK CHECK completed", tag))
 		return
